@@ -3,6 +3,7 @@ package main
 import (
 	"crypto/sha256"
 	"encoding/hex"
+	"github.com/elementsproject/peerswap/messages"
 
 	"github.com/elementsproject/peerswap/onchain"
 	"github.com/elementsproject/peerswap/swap"
@@ -163,6 +164,17 @@ func cmdProbe(name string) {
 		fmt.Println("txhex", len(hx), err)
 		ok, err := lq.ValidateTx(params, hx)
 		fmt.Println("validate explicit output:", ok, err)
+	case "c16-nilid":
+		// a swap_in_request without swap id, naming somebody's channel, from a third party
+		a := newCtx(w)
+		payload := `{"protocol_version":7,"network":"regtest","scid":"100x1x0","amount":1000000,"pubkey":"` + hex.EncodeToString(a.peerKey.PubKey().SerializeCompressed()) + `","premium_limit":1000000}`
+		fmt.Println("request without swap id from a third party:", a.deliverRaw(thirdNode, messages.MessageTypeToHexString(messages.MESSAGETYPE_SWAPINREQUEST), []byte(payload)))
+		fmt.Println("active entries:", w.svc.VerifActiveSwaps())
+		b := newCtx(w)
+		fmt.Println("the channel partner's own request on that channel:", b.Step("new inReceiver btc scid=100x1x0"), b.state())
+		_, err := w.svc.SwapOut(peerNode, "btc", "100:1:0", selfNode, 1000000, 50000)
+		fmt.Println("local swap-out on that channel:", err)
+		fmt.Println("after the negotiation timeout:", a.Step("timeout"), w.svc.VerifActiveSwaps())
 	case "c09-toctou":
 		// two swap-in requests with the SAME id: the second passes the "id known?" test, then waits in a Lightning
 		// RPC; meanwhile the first is admitted, cancelled by the peer and finished; then the second goes on
